@@ -187,6 +187,153 @@ Proof. exact lcs_band_swap. Qed.
 Theorem C09_ref_symmetric : forall a b, lcs_ref a b = lcs_ref b a.
 Proof. exact lcs_ref_sym. Qed.
 
+(** ---- Round 3. ----
+    The two accessors of the packed word that have no caller, _isout and _lpath: for EVERY word they are the third and the
+    second result of decodeValues, hence they invert encodeValues on in-range fields; the transcriptions agree with the
+    build under test on the dumped sample words. *)
+Theorem C09_pack_accessors :
+  (forall v, dec v = (N.land (N.shiftr v 16) mask16, lpath v, isout v)) /\
+  (forall s l o, s < 65536 -> l <= 65534 -> isout (enc s l o) = o /\ lpath (enc s l o) = l)%N /\
+  forallb acc_sample_ok acc_samples = true.
+Proof. exact pack_accessors. Qed.
+
+(** _samenuc on every pair of byte values (every pair of numbers), not only on the 32 codes of C09_iupac_compat: two letters
+    of either case match iff their IUPAC sets intersect (a letter that is no code has the empty set: it matches nothing,
+    not even itself); if one symbol is no letter they match iff they are equal after folding ASCII upper case. *)
+Theorem C09_samenuc_all_bytes : forall x y,
+  samenuc x y = if is_letter x && is_letter y then compatible x y else (lower x =? lower y)%N.
+Proof. exact samenuc_all. Qed.
+
+(** The kernel does not see the case of its symbols: any two spellings (upper, lower, mixed case) of the same two
+    sequences give the same three results of FastLCSEGFScoreByte - both modes, every bound, any two scratch buffers - and the
+    same reference pair. (BioSequence stores lower case; the byte entry point takes raw bytes.) *)
+Theorem C09_case_insensitive : forall a a' b b', map lower a = map lower a' -> map lower b = map lower b' ->
+  (forall m egf init init', lcs_band a b m egf init = lcs_band a' b' m egf init') /\
+  lcs_ref a b = lcs_ref a' b'.
+Proof. exact case_insensitive. Qed.
+
+(** D1Or0 against the LCS kernel - what obitag, obirefidx, obiclean and obiconsensus rely on when they call D1Or0 instead of
+    FastLCSScore for the bounds 0 and 1. D1Or0 compares bytes, the kernel compares IUPAC sets.
+    (a) On sequences of self-compatible symbols (any IUPAC codes) D1Or0 never under-estimates: verdict 0 implies the
+    reference pair (L, L), verdict 1 implies (L, L) or (L - 1, L), L the length of the longer sequence. *)
+Theorem C09_shortcut_sound : forall a b, selfc a -> selfc b ->
+  (verdict (d1or0 a b) = 0%Z -> lcs_ref a b = (length a, length a) /\ length a = length b) /\
+  (verdict (d1or0 a b) = 1%Z ->
+     let L := Nat.max (length a) (length b) in
+     (1 <= L)%nat /\ (lcs_ref a b = (L, L) \/ lcs_ref a b = (L - 1, L)%nat)).
+Proof. exact shortcut_sound. Qed.
+
+(** (b) When matching symbols are equal (sequences over a, c, g, t) the two kernels agree on the classes 0 / 1 / more:
+    verdict d in {0, 1} iff the reference has exactly d differences, and then it is (L - d, L); verdict -1 iff it has at
+    least two. *)
+Theorem C09_shortcut_exact : forall a b, selfc a -> selfc b -> exact2 a b ->
+  let L := Nat.max (length a) (length b) in
+  (verdict (d1or0 a b) = 0%Z <-> rdiff a b = 0%Z) /\
+  (verdict (d1or0 a b) = 1%Z <-> rdiff a b = 1%Z) /\
+  (verdict (d1or0 a b) = (-1)%Z <-> (2 <= rdiff a b)%Z) /\
+  (verdict (d1or0 a b) = 0%Z -> lcs_ref a b = (L, L)) /\
+  (verdict (d1or0 a b) = 1%Z -> lcs_ref a b = (L - 1, L)%nat).
+Proof. exact shortcut_exact. Qed.
+
+(** (c) Hence, for sequences over a, c, g, t with |a| + |b| <= 30000, the bounds 0 and 1 and any scratch buffer, the
+    callers' shortcut (max length - d, max length) is exactly what FastLCSScore returns when 0 <= d <= bound, and when D1Or0
+    says -1 or more than the bound FastLCSScore says 'not found' or returns a pair beyond the bound. *)
+Theorem C09_shortcut_kernel_plain : forall a b m init, over nucs a -> over nucs b ->
+  (Z.of_nat (length a) + Z.of_nat (length b) <= 30000)%Z -> (m = 0 \/ m = 1)%Z ->
+  let L := Z.of_nat (Nat.max (length a) (length b)) in
+  let d := verdict (d1or0 a b) in
+  ((0 <= d <= m)%Z -> fast_lcs_score a b m init = (L - d, L)%Z) /\
+  ((d = -1 \/ m < d)%Z ->
+     fast_lcs_score a b m init = (-1, -1)%Z \/
+     (0 <= fst (fast_lcs_score a b m init) /\ m < snd (fast_lcs_score a b m init) - fst (fast_lcs_score a b m init))%Z).
+Proof.
+  intros a b m init Ha Hb. apply shortcut_kernel; [apply nucs_selfc; exact Ha | apply nucs_selfc; exact Hb | apply nucs_exact2; assumption].
+Qed.
+
+(** (d) The agreement (b), (c) fails on ambiguity codes: a base facing a code that contains it is one difference for D1Or0
+    and none for FastLCSScore (acgta / acnta). Callers that switch to D1Or0 once their bound has shrunk to 0 or 1 record the
+    distance 1 for such a reference where FastLCSScore gives 0 (outside this property's statement: both kernels do what the
+    property says of each; see META note). *)
+Theorem C09_shortcut_ambiguity_witness : exists a b, selfc a /\ selfc b /\
+  verdict (d1or0 a b) = 1%Z /\ lcs_ref a b = (length a, length a) /\
+  fast_lcs_score a b 1 [] = (Z.of_nat (length a), Z.of_nat (length a)) /\
+  fast_lcs_score a b 0 [] = (Z.of_nat (length a), Z.of_nat (length a)).
+Proof. exact shortcut_ambiguity_witness. Qed.
+
+(** The bounds the doc comment of FastLCSScore misdescribes ("if maxError > 0 ... otherwise no error checking"): only -1 means
+    no bound. Bound 0 is a real bound: the answer is (n, n) exactly for two sequences of the same length n that match symbol
+    by symbol under IUPAC compatibility, and 'not found' or a pair with at least one difference otherwise. *)
+Theorem C09_bound0_spec : forall a b init, (Z.of_nat (length a) + Z.of_nat (length b) <= 30000)%Z ->
+  (allmatch a b -> fast_lcs_score a b 0 init = (Z.of_nat (length a), Z.of_nat (length a))) /\
+  (~ allmatch a b ->
+     fast_lcs_score a b 0 init = (-1, -1)%Z \/
+     (0 <= fst (fast_lcs_score a b 0 init) /\ 0 < snd (fast_lcs_score a b 0 init) - fst (fast_lcs_score a b 0 init))%Z).
+Proof. exact bound0_spec. Qed.
+
+(** Bound 1 characterised without the DP: (L, L) for sequences that match symbol by symbol, (L - 1, L) for sequences one edit
+    apart under IUPAC compatibility (inductive definition edit1c: one substituted, deleted or inserted symbol, everything else
+    matching), L the length of the longer sequence; otherwise 'not found' or a pair with at least two differences. With
+    C09_bound0_spec this is the specification of what a correct shortcut for the bounds 0 and 1 has to decide (D1Or0 decides it
+    with byte equality: C09_shortcut_exact / C09_shortcut_ambiguity_witness). *)
+Theorem C09_bound1_spec : forall a b init, (Z.of_nat (length a) + Z.of_nat (length b) <= 30000)%Z ->
+  let L := Z.of_nat (Nat.max (length a) (length b)) in
+  (allmatch a b -> fast_lcs_score a b 1 init = (L, L)) /\
+  (~ allmatch a b -> edit1c a b -> fast_lcs_score a b 1 init = (L - 1, L)%Z) /\
+  (~ allmatch a b -> ~ edit1c a b ->
+     fast_lcs_score a b 1 init = (-1, -1)%Z \/
+     (0 <= fst (fast_lcs_score a b 1 init) /\ 1 < snd (fast_lcs_score a b 1 init) - fst (fast_lcs_score a b 1 init))%Z).
+Proof. exact bound1_spec. Qed.
+
+(** the reference pair has at most one difference iff the sequences match symbol by symbol or are one compatible edit apart *)
+Theorem C09_ref_one_difference : forall a b, (rdiff a b <= 1)%Z <-> (allmatch a b \/ edit1c a b).
+Proof. exact rdiff_le1. Qed.
+
+(** Every bound below -1 answers (-1, -1, -1) in both modes, whatever the sequences and the scratch buffer. *)
+Theorem C09_negative_bound : forall a b m egf init, (m < -1)%Z -> lcs_band a b m egf init = (-1, -1, -1)%Z.
+Proof. exact negative_bound. Qed.
+
+(** No run-time panic: [lcs_band_c] is the kernel written with CHECKED slice accesses (every read of previous / current / bA / bB,
+    every write, the two sub-slices of the scratch buffer and the final read answer None - Go's "index out of range" - outside
+    the slice, and the cell values flow from the checked reads). It always answers Some of what the model answers: for all
+    sequences, all bounds, both modes and any content and capacity of the scratch buffer FastLCSEGFScoreByte indexes in range,
+    and the default value 0 that Model.v gives to an out-of-range read is never used. *)
+Theorem C09_no_panic : forall a b maxerr egf init,
+  lcs_band_c a b maxerr egf init = Some (lcs_band a b maxerr egf init).
+Proof. exact lcs_band_no_panic. Qed.
+
+(** The same for D1Or0: [d1or0_c] is D1Or0 written as the Go code is - the two index loops (from the start; from the ends) with
+    every read of s1 / s2 checked, and fuel - and it always answers Some of what the list-level model [d1or0] (lcp / sfx, the
+    subject of C09_d1or0_exact) answers: D1Or0 never indexes out of range, whatever the two sequences (e.g. e1 = -1 when the
+    first sequence is a proper prefix of the second one is never read), and its loops compute lcp / sfx. *)
+Theorem C09_d1or0_no_panic : forall s1 s2, d1or0_c s1 s2 = Some (d1or0 s1 s2).
+Proof. exact d1or0_no_panic. Qed.
+
+(** non-vacuity of the round-3 hypotheses: plain and IUPAC sequences meet selfc / exact2 / over; the conclusions are not trivial *)
+Example C09_round3_nonvacuous :
+  over nucs [97; 99; 103; 116]%N /\ selfc [97; 99; 110; 114; 78]%N /\ exact2 [97; 99; 103]%N [116; 103; 97]%N /\
+  (forall a, over iupac_codes a -> selfc a) /\
+  verdict (d1or0 [97; 99; 103; 116]%N [97; 103; 116]%N) = 1%Z /\ rdiff [97; 99; 103; 116]%N [97; 103; 116]%N = 1%Z /\
+  fast_lcs_score [97; 99; 103; 116]%N [97; 103; 116]%N 1 [] = (3, 4)%Z /\
+  map lower [65; 67; 71; 84]%N = map lower [97; 67; 103; 116]%N /\
+  lcs_band [65; 67; 71; 84]%N [97; 103; 116]%N 1 false [] = (3, 4, 0)%Z /\
+  samenuc 90 90 = false /\ samenuc 64 64 = true /\ samenuc 64 96 = false /\ samenuc 82 103 = true /\
+  isout (enc 7 12 true) = true /\ lpath (enc 7 12 true) = 12%N /\
+  allmatch [97; 99; 110]%N [97; 121; 103]%N /\ ~ allmatch [97; 99]%N [97; 103]%N /\
+  fast_lcs_score [97; 99; 110]%N [97; 121; 103]%N 0 [] = (3, 3)%Z /\ fast_lcs_score [97; 99]%N [97; 103]%N 0 [] = (1, 2)%Z /\
+  edit1c [97; 99; 110; 116]%N [97; 121; 116]%N /\ fast_lcs_score [97; 99; 110; 116]%N [97; 121; 116]%N 1 [] = (3, 4)%Z.
+Proof.
+  split; [intros c Hc; cbn in Hc |- *; tauto |].
+  split; [apply iupac_selfc; intros c Hc; cbn in Hc |- *; tauto |].
+  split; [apply nucs_exact2; intros c Hc; cbn in Hc |- *; tauto |].
+  split; [exact iupac_selfc |].
+  do 11 (split; [vm_compute; reflexivity |]).
+  split; [repeat constructor |].
+  split; [intro H; inversion H as [| ? ? ? ? _ H2]; inversion H2 as [| ? ? ? ? M _]; vm_compute in M; discriminate M |].
+  split; [vm_compute; reflexivity |]. split; [vm_compute; reflexivity |].
+  split; [| vm_compute; reflexivity].
+  apply (Ec_del [97; 99]%N [97; 121]%N 110%N [116]%N [116]%N); repeat constructor.
+Qed.
+
 (** non-vacuity: the hypotheses are met by non-trivial values and the conclusions are not trivial there *)
 Example C09_nonvacuous :
   (7 < 65536 /\ 12 <= 65534 /\ dec (enc 7 12 false) = (7, 12, false))%N /\
@@ -227,3 +374,16 @@ Print Assumptions C09_egf_cells.
 Print Assumptions C09_egf_exact.
 Print Assumptions C09_band_swap.
 Print Assumptions C09_ref_symmetric.
+Print Assumptions C09_pack_accessors.
+Print Assumptions C09_samenuc_all_bytes.
+Print Assumptions C09_case_insensitive.
+Print Assumptions C09_shortcut_sound.
+Print Assumptions C09_shortcut_exact.
+Print Assumptions C09_shortcut_kernel_plain.
+Print Assumptions C09_shortcut_ambiguity_witness.
+Print Assumptions C09_bound0_spec.
+Print Assumptions C09_negative_bound.
+Print Assumptions C09_bound1_spec.
+Print Assumptions C09_ref_one_difference.
+Print Assumptions C09_no_panic.
+Print Assumptions C09_d1or0_no_panic.
